@@ -1,5 +1,6 @@
 import TerwayModel.Model.Bandwidth
 import TerwayModel.Proofs.StoredRec
+import TerwayModel.Model.Remote
 /-
 C15 — user-controlled input can be rejected but can never crash a component (bandwidth part), and
 well-formed bandwidth values are accepted with or without a unit and scale monotonically.
@@ -200,7 +201,38 @@ theorem c15_stored_filter_total (att : Stored.Attached) (rs : List Stored.Item) 
 theorem c15_stored_filter_range_loop_panics :
     Stored.filterWith false [] [⟨true, "eni-gone", "a"⟩, ⟨true, "eni-gone", "b"⟩] = none := by decide
 
+/-! ## ConfigMap content in a wait loop: `backoff_override` and the daemon's wait for a PodENI record -/
+
+open Terway.Remote in
+/-- **Whatever number of steps `eni_conf` configures - none included - the caller of `Remote.Allocate` gets an answer**, and
+    with no step at all it is the time-out (the record was never read, so there is nothing to hand over or to describe) -/
+theorem c15_remote_zero_steps_times_out (trunk : Bool) (r : Rec) : poll trunk r 0 = .timeout := rfl
+
+open Terway.Remote in
+/-- with at least one step the answer is decided by the record alone: handed over exactly when one look accepts it, refused
+    for good exactly when one look fails for good, timed out otherwise - the number of steps changes nothing while the record
+    does not change -/
+theorem c15_remote_answer_is_the_records (trunk : Bool) (r : Rec) (n : Nat) :
+    poll trunk r (n + 1) = (match look trunk r with | .done => .ok | .fail => .notReady | .again => .timeout) := by
+  induction n with
+  | zero => simp [poll]; cases look trunk r <;> rfl
+  | succ k ih =>
+    rw [poll]
+    cases h : look trunk r <;> simp
+    rw [ih, h]
+
+open Terway.Remote in
+/-- handed over only if the record is Bind for this pod instance, not being deleted, with interfaces, on this daemon's trunk -/
+theorem c15_remote_ok_only_if_ready (trunk : Bool) (r : Rec) (n : Nat) (h : poll trunk r n = .ok) :
+    r = .good ∨ (r = .otherTrunk ∧ trunk = false) := by
+  cases n with
+  | zero => simp [poll] at h
+  | succ k =>
+    rw [c15_remote_answer_is_the_records] at h
+    cases r <;> cases trunk <;> simp_all [look]
+
 /-! ## non-vacuity -/
+example : Remote.poll true .good 1 = .ok ∧ Remote.poll true .otherTrunk 3 = .notReady ∧ Remote.poll false .notBind 3 = .timeout := by decide
 example : Stored.filter [("eni-1", "m1")] [⟨true, "eni-gone", "a"⟩, ⟨true, "eni-1", "b"⟩, ⟨true, "", "m1.10.0.0.1"⟩, ⟨true, "", "m2.10.0.0.2"⟩] =
     some [⟨true, "eni-1", "b"⟩, ⟨true, "", "m1.10.0.0.1"⟩] := by decide
 example : parseBandwidth asciiCfg ['1','0','0','0'] = .ok 1000 := by decide
